@@ -177,8 +177,10 @@ def run(F, rep, tier):
                 vs = [x.get("path") or x.get("callee") for x, _ in find_hir(arm["b"], lambda x: x.get("k") in ("Path", "Call") and "ItemDefinitionType::" in ((x.get("path") or x.get("callee") or "")))]
                 table.append((pat, vs[0].split("::")[-1] if vs else None))
         if not table:
-            rep.missing_anchor(r2, "4-tuple match in item_definition_type")
-        if any("?" in pat for pat, _ in table):
+            # the classification is written in another form (an enum of cases, nested tests ..): nothing to compare the specification table with
+            rep.undecided(r2, "classification", "item_definition_type has no match over a 4-tuple of the defining facts (typeRef present, simple type, components, collection)")
+            table = None
+        if table is not None and any("?" in pat for pat, _ in table):
             rep.undecided(r2, "classification", "the classification match uses patterns other than booleans / Some / None / wildcards")
             table = None
         import itertools
